@@ -15,7 +15,7 @@ RULE = ('trees generated from the grammar (depth <= 4, arity 2-5, WITH pairs, sa
         'or a WITH pair or a redundant parenthesis; distinct by (table, text)')
 ASSUMPTIONS = ['table names contain no operator words (C04 covers names that do)']
 
-UNK = ['u1', 'zed', 'q-1', 'Kx']
+UNK = ['u1', 'zed', 'q-1', 'Kx', 'Zed', 'ZED', 'kx']
 
 
 def unknown_key(rng):
@@ -65,7 +65,7 @@ class Prop(BaseProp):
             if choices and rng.random() < 0.7:
                 nm, c = rng.choice(choices)
                 return gen.variant(rng, nm), c
-            u = unknown_key(rng)
+            u = ' '.join(gen.recase(rng, w) for w in unknown_key(rng).split(' '))
             return u.replace(' ', gen.blank_run(rng)) if rng.random() < 0.3 else u, [u, False]
 
         def go(d, parent):
@@ -145,7 +145,7 @@ class Prop(BaseProp):
         return Verdict('ok', case, impl=ip, nontrivial=want is not None and len(toks) >= 3, tags=['derivable' if want is not None else 'not-derivable'])
 
     def exhaustive(self, drv, index, nworkers, maxlen):
-        alpha = ['a', 'zz', 'and', 'or', 'with', '(', ')']
+        alpha = ['a', 'A', 'zz', 'and', 'or', 'with', '(', ')']
         k = 0
         count = 0
         for n in range(1, maxlen + 1):
@@ -155,7 +155,7 @@ class Prop(BaseProp):
                     continue
                 self.record(self.eval_tokens(drv, list(toks)))
                 count += 1
-        self.res['exhaustive'].append({'scope': 'token strings of length <= %d over {a,zz,and,or,with,(,)}' % maxlen, 'cases': count, 'complete': True, 'worker': index})
+        self.res['exhaustive'].append({'scope': 'token strings of length <= %d over {a,A,zz,and,or,with,(,)}' % maxlen, 'cases': count, 'complete': True, 'worker': index})
 
     def run(self, drv, rng, tier, index, nworkers, scale):
         n = self.budget(tier, 5000, 60000, nworkers, scale)
@@ -164,7 +164,7 @@ class Prop(BaseProp):
                 self.record(self.eval_case(drv, c))
         for _ in range(n):
             self.record(self.eval_case(drv, self.case_random(rng)))
-        self.exhaustive(drv, index, nworkers, 6 if tier == 'thorough' else 4)
+        self.exhaustive(drv, index, nworkers, 6 if tier == 'thorough' else 4)   # 8^4 = 4 096 quick, 8^6 = 262 144 thorough
         return self.res
 
     def replay(self, drv, data):
